@@ -7,7 +7,7 @@ import ast
 from ..model import AnalysisError
 from ..symeval import ts, subterms, subst, is_const, C, NONE
 from .util import (CORE, N, call, CH, SC, RV, mk_ev, mk_lin, summarize, spine_cases, none_test, items, is_call,
-                   mentions, func_loc, short, std_axioms)
+                   mentions, func_loc, short, std_axioms, all_cases)
 from ..linform import fmt_lf
 
 SELF = ("param", "self")
@@ -157,12 +157,12 @@ def dist_generate(ctx, rule="ALG-dist"):
     ck = Checker(ctx, ev, lin, rule, "core.Distribution.generate", func_loc(ctx, CORE + "Distribution.generate"))
     X = ("param", "x")
     saw = set()
-    for asg, leaf in spine_cases(s.ret):
+    for asg, leaf in all_cases(s.ret):
         pol = None
         for c, v in asg.items():
             r = none_test(c, X)
             if r is None:
-                raise AnalysisError(f"core.Distribution.generate: unrecognised branch condition {short(c, ev)}")
+                continue
             pol = (r == v)
         if pol is None:
             raise AnalysisError("core.Distribution.generate: no `x is None` split found (shape not recognised)")
@@ -190,12 +190,12 @@ def dist_update(ctx, rule="ALG-dist"):
     ck = Checker(ctx, ev, lin, rule, "core.Distribution.update", func_loc(ctx, CORE + "Distribution.update"))
     X_ = ("param", "x_")
     saw = set()
-    for asg, leaf in spine_cases(s.ret):
+    for asg, leaf in all_cases(s.ret):
         pol = None
         for c, v in asg.items():
             r = none_test(c, X_)
             if r is None:
-                raise AnalysisError(f"core.Distribution.update: unrecognised branch condition {short(c, ev)}")
+                continue
             pol = (r == v)
         if pol is None:
             # a body that treats None uniformly is acceptable only if the value is `x_ or old`: not recognised
@@ -240,12 +240,12 @@ def dist_regenerate(ctx, rule="ALG-dist"):
     ck = Checker(ctx, ev, lin, rule, "core.Distribution.regenerate", func_loc(ctx, CORE + "Distribution.regenerate"))
     SELP = ("param", "s")
     saw = set()
-    for asg, leaf in spine_cases(s.ret):
+    for asg, leaf in all_cases(s.ret):
         pol = None
         for c, v in asg.items():
             r = leaf_selected_test(c, SELP)
             if r is None:
-                raise AnalysisError(f"core.Distribution.regenerate: unrecognised branch condition {short(c, ev)}")
+                continue
             pol = (r == v)
         if pol is None:
             raise AnalysisError("core.Distribution.regenerate: no leaf-selection split found (shape not recognised)")
@@ -599,7 +599,7 @@ def handler_stack_ownership(ctx, rule="OWN-handler_stack"):
     outside = [w for w in writers if not (w[0] == "genjax.core" and w[1] in allowed)]
     pushes = sum(1 for w in writers if w[2] == "append")
     pops = sum(1 for w in writers if w[2] == "pop")
-    ctx.need(pushes >= 5, f"handler_stack pushes found: {pushes} (< 5)")
+    ctx.need(pushes >= 1, "handler_stack is never pushed (anchor vanished)")
     if outside:
         ctx.bad(rule, "core.handler_stack", "mutated outside Fn", f"handler_stack mutated outside Fn methods at {outside}", f"{outside[0][0]}:{outside[0][1]}")
     elif pushes != pops:
@@ -649,7 +649,7 @@ def vmap_rule(ctx, method, rule="ALG-Vmap"):
         ck.eq("in_axes = self.in_axes.value", inax or NONE, val)
     else:
         nonec = None
-        for asg, leaf in spine_cases(inax if inax is not None else NONE):
+        for asg, leaf in all_cases(inax if inax is not None else NONE):
             pol = None
             for c, v in asg.items():
                 rr = none_test(c, val)
@@ -710,8 +710,8 @@ def vmap_rule(ctx, method, rule="ALG-Vmap"):
 
 
 def vmap_narrow(ctx, rule="NARROW-in_axes"):
-    """Vmap.in_axes is declared int | tuple | Sequence | None (GFI.vmap defaults to 0): `(0,…) + in_axes`
-    must be dominated by a normalisation of the non-tuple alternatives."""
+    """Vmap.in_axes is declared int | tuple | Sequence | None (GFI.vmap defaults to 0): `(0,…) + in_axes` must be
+    dominated by a normalisation of the non-tuple alternatives.  Decided on the symbolic in_axes term handed to modular_vmap."""
     kind, cls, mod, _ = ctx.p.get_class(CORE + "Vmap")
     ann = None
     for st in cls.body:
@@ -720,23 +720,37 @@ def vmap_narrow(ctx, rule="NARROW-in_axes"):
     ctx.need(ann is not None, "anchor vanished: Vmap.in_axes field")
     declares_int = "int" in ann.replace("tuple[int", "")
     gv = ctx.p.get_function(CORE + "GFI.vmap")[1]
-    default_int = any(isinstance(d, ast.Constant) and isinstance(d.value, int) for d in gv.args.defaults)
+    default_int = any(isinstance(d, ast.Constant) and isinstance(d.value, int) and not isinstance(d.value, bool) for d in gv.args.defaults)
+    val = ("attr", ("attr", SELF, "in_axes"), "value")
     n = 0
-    for st in cls.body:
-        if not isinstance(st, ast.FunctionDef):
-            continue
-        for node in ast.walk(st):
-            if isinstance(node, ast.BinOp) and isinstance(node.op, ast.Add) and isinstance(node.left, ast.Tuple) \
-                    and ast.unparse(node.right) == "self.in_axes.value":
-                n += 1
-                guarded = any(isinstance(x, ast.Call) and ast.unparse(x.func) == "isinstance" and "in_axes" in ast.unparse(x) for x in ast.walk(st))
-                construct = f"core.Vmap.{st.name}"
-                if (declares_int or default_int) and not guarded:
-                    ctx.bad(rule, construct, "tuple + self.in_axes.value without int/list normalisation",
-                            "in_axes may be an int (GFI.vmap default 0) or a list; `(0, …) + self.in_axes.value` raises TypeError for them", ctx.loc(mod, node))
-                else:
-                    ctx.ok(rule, construct)
-    ctx.need(n >= 4, f"NARROW-in_axes: only {n} prefix+in_axes sites found (floor 4)")
+    for method in ("generate", "assess", "update", "regenerate"):
+        ev = mk_ev(ctx)
+        dotted = CORE + "Vmap." + method
+        s = summarize(ctx, ev, dotted)
+        lanes = find_lanes(s.ret)
+        if not lanes:
+            raise AnalysisError(f"core.Vmap.{method}: vectorised call not found")
+        inax = ev.vmaps[lanes[0][1]]["in_axes"] or NONE
+        construct = f"core.Vmap.{method}"
+        raw = False
+        for asg, leaf in all_cases(inax):
+            pol = None
+            for c, v in asg.items():
+                rr = none_test(c, val)
+                if rr is not None:
+                    pol = (rr == v)
+            if pol is False or pol is None:
+                # the non-None case: tuple + raw declared-union value?
+                for x in subterms(leaf):
+                    if x[0] == "binop" and x[1] == "+" and x[2][0] == "tuple" and x[3] == val:
+                        raw = True
+        n += 1
+        if raw and (declares_int or default_int):
+            ctx.bad(rule, construct, "tuple + self.in_axes.value without int/list normalisation",
+                    "in_axes may be an int (GFI.vmap default 0) or a list; `(0, …) + self.in_axes.value` raises TypeError for them", func_loc(ctx, dotted))
+        else:
+            ctx.ok(rule, construct)
+    ctx.need(n == 4, "NARROW-in_axes: Vmap methods not analysed")
 
 
 def vmap_kwargs_sig(ctx, rule="SIG-kwargs"):
@@ -1087,86 +1101,63 @@ def cond_trace_rules(ctx, rule="ROLE-CondTr"):
             ck.eq("second (false-arm) operand = branch 1 choices", a[1], want[1])
             ck.eq("third operand = the trace's condition", a[2], CK)
         ck.done()
-    # every CondTr construction site passes a 2-element literal list (justifies known_len trs = 2)
+    # every CondTr construction site passes two branch traces (justifies known_len trs = 2): a literal list must have
+    # 2 elements; a computed one is accepted only inside class Cond, where ALG-Cond compares the constructed term
     n = 0
+    kind, ccls, cmod, _ = ctx.p.get_class(CORE + "Cond")
+    inside = {id(x) for x in ast.walk(ccls)}
     for mn, m in ctx.p.modules.items():
         for node in ast.walk(m.tree):
             if isinstance(node, ast.Call) and isinstance(node.func, ast.Name) and node.func.id == "CondTr":
                 n += 1
-                if not (len(node.args) == 3 and isinstance(node.args[2], ast.List) and len(node.args[2].elts) == 2):
-                    ctx.bad(rule, "core.CondTr(...)", "two-branch literal", f"CondTr constructed without a 2-element branch list", ctx.loc(m, node))
-    ctx.need(n >= 5, f"CondTr construction sites: {n} (floor 5)")
-    ctx.ok(rule, "core.CondTr(...) sites", f"{n} construction sites, all with 2 branch traces")
+                third = node.args[2] if len(node.args) == 3 else None
+                if isinstance(third, ast.List):
+                    if len(third.elts) != 2:
+                        ctx.bad(rule, "core.CondTr(...)", "two-branch literal", "CondTr constructed with a branch list that does not have 2 elements", ctx.loc(m, node))
+                elif third is None or id(node) not in inside:
+                    ctx.bad(rule, "core.CondTr(...)", "two-branch list", "CondTr constructed outside Cond with a computed branch list", ctx.loc(m, node))
+    ctx.need(n >= 4, f"CondTr construction sites: {n} (floor 4)")
+    ctx.ok(rule, "core.CondTr(...) sites", f"{n} construction sites with 2 branch traces")
 
 
 def merge_polarity(ctx, rule="ROLE-merge-polarity"):
-    """merge(x, x_, check) selects x where check is True and x_ where False (Distribution.merge, Fn.merge leaves)."""
+    """merge(x, x_, check) selects x where check is True and x_ where False (Distribution.merge; Fn.merge leaves are
+    decided by the guarded-store table TABLE-Fn.merge)."""
     ev = mk_ev(ctx)
     lin = mk_lin(ev)
     s = summarize(ctx, ev, CORE + "Distribution.merge")
     ck = Checker(ctx, ev, lin, rule, "core.Distribution.merge", func_loc(ctx, CORE + "Distribution.merge"))
     X, X_, CKP = ("param", "x"), ("param", "x_"), ("param", "check")
-    ok = False
-    for asg, leaf in spine_cases(s.ret):
+    saw = set()
+    for asg, leaf in all_cases(s.ret):
         pol = None
         for c, v in asg.items():
             rr = none_test(c, CKP)
             if rr is not None:
                 pol = (rr == v)
-        if pol is False:
-            it = items(leaf)
-            if it and it[0][0] == "treemap":
-                body = it[0][2]
-                tid = it[0][1]
-                if is_where(body) and body[2] == (CKP, ("leaf", tid, X), ("leaf", tid, X_)):
-                    ok = True
-                else:
-                    ck.fail("leafwise where(check, x, x_)", f"found {short(body, ev)}")
-            elif it:
-                ck.fail("leafwise where(check, x, x_)", f"found {short(it[0], ev)}")
-    if not ok and not ck.failed:
-        ck.fail("conditional merge present", "no tree_map(where(check, x, x_)) found on the check-given path")
+        if pol is None:
+            continue
+        saw.add(pol)
+        if pol:
+            if leaf[0] != "raise":
+                ck.fail("merge without a check is refused for raw values", f"found {short(leaf, ev, 120)}")
+            continue
+        it = items(leaf)
+        if not it or len(it) != 2:
+            ck.fail("returns (merged, None)", f"found {short(leaf, ev, 120)}")
+            continue
+        m = it[0]
+        if m[0] == "treemap" and is_where(m[2]) and m[2][2] == (CKP, ("leaf", m[1], X), ("leaf", m[1], X_)):
+            pass
+        else:
+            ck.fail("leafwise where(check, x, x_)", f"found {short(m, ev, 160)}")
+        if not is_const(it[1], None):
+            ck.fail("conditional merge discards nothing", f"found {short(it[1], ev)}")
+    if False not in saw:
+        ck.fail("conditional merge present", "no check-given case found")
     ck.done()
-    # Fn.merge: analysed on the AST (loop body)
-    kind, node, mod, owner = ctx.p.get_function(CORE + "Fn.merge")
-    ctx.fn(CORE + "Fn.merge")
-    a = [x.arg for x in node.args.args]
-    ctx.need(a[:4] == ["self", "x", "x_", "check"], f"Fn.merge signature changed: {a}")
-    ck = Checker(ctx, ev, lin, rule, "core.Fn.merge", ctx.loc(mod, node))
-    wheres = [c for c in ast.walk(node) if isinstance(c, ast.Call) and ast.unparse(c.func) in ("jnp.where", "jax.lax.select")]
-    if not wheres:
-        ck.fail("conditional leaf merge uses where(check, x-side, x_-side)", "no jnp.where in Fn.merge")
-    for w in wheres:
-        enc = None
-        for lam in ast.walk(node):
-            if isinstance(lam, ast.Lambda) and any(x is w for x in ast.walk(lam)):
-                enc = lam
-        tm = None
-        for c in ast.walk(node):
-            if isinstance(c, ast.Call) and ast.unparse(c.func) in ("jtu.tree_map", "jax.tree_util.tree_map") and c.args and c.args[0] is enc:
-                tm = c
-        if enc is None or tm is None or len(tm.args) != 3 or len(w.args) != 3:
-            raise AnalysisError("core.Fn.merge: conditional leaf merge shape not recognised")
-        p1, p2 = [x.arg for x in enc.args.args][:2]
-        arms = (ast.unparse(w.args[1]), ast.unparse(w.args[2]))
-        srcs = (ast.unparse(tm.args[1]), ast.unparse(tm.args[2]))
-        # provenance of val_x / val_x_
-        prov = {}
-        for st in ast.walk(node):
-            if isinstance(st, ast.Assign) and len(st.targets) == 1 and isinstance(st.targets[0], ast.Name):
-                prov[st.targets[0].id] = ast.unparse(st.value)
-        def side(nm):
-            v = prov.get(nm, nm)
-            if v.startswith("x_["):
-                return "x_"
-            if v.startswith("x["):
-                return "x"
-            return v
-        first = side(srcs[0]) if arms[0] == p1 else side(srcs[1]) if arms[0] == p2 else arms[0]
-        second = side(srcs[1]) if arms[1] == p2 else side(srcs[0]) if arms[1] == p1 else arms[1]
-        if ast.unparse(w.args[0]) != "check" or first != "x" or second != "x_":
-            ck.fail("where(check, x-side, x_-side)", f"found where({ast.unparse(w.args[0])}, {first}-side, {second}-side)")
-    ck.done()
+    from . import tables
+    tables.fn_merge_table(ctx)
 
 
 def ih_regen_axiom(x):
